@@ -758,6 +758,30 @@ impl<F: Read + Write + Seek> Package<F> {
                 }
             }
         }
+        // Likewise, make sure that all the strings in those rows will fit in
+        // the string pool (trying it out on a copy if it is nearly full).
+        let all_values = || {
+            validation_rows
+                .iter()
+                .chain(columns_rows.iter())
+                .chain(tables_rows.iter())
+                .flatten()
+        };
+        let num_strings = all_values().filter(|value| value.is_str()).count();
+        if !self.string_pool.has_room_for(num_strings) {
+            let mut trial_pool = self.string_pool.clone();
+            for value in all_values() {
+                if ValueRef::try_create(value.clone(), &mut trial_pool)
+                    .is_none()
+                {
+                    invalid_input!(
+                        "Cannot create table {:?}: too many distinct strings \
+                         in the string pool",
+                        table_name
+                    );
+                }
+            }
+        }
         self.tables.insert(table_name.clone(), table);
         let result = self
             .insert_rows(
